@@ -378,6 +378,10 @@ class Interp:
     # -- if ------------------------------------------------------------------
     def _exec_if(self, s: ast.If, frame: Frame, st: _State) -> Optional[_State]:
         c = self.eval(s.test, frame, st)
+        known = const_truth(c)
+        if known is not None:
+            # the test is decided by constants (an inlined helper called with a literal / default argument)
+            return self.exec_block(s.body if known else s.orelse, frame, st) if (s.body if known else s.orelse) else st
         c, flip = strip_not(c)
         env0 = dict(frame.env)
         st_t = self.exec_block(s.body, frame, st.with_cond(c, not flip))
@@ -703,6 +707,9 @@ class Interp:
             return parts[0] if len(parts) == 1 else ("bool", "and", tuple(parts))
         if isinstance(n, ast.IfExp):
             c = self.eval(n.test, frame, st)
+            known = const_truth(c)
+            if known is not None:
+                return self.eval(n.body if known else n.orelse, frame, st)
             b, flip = strip_not(c)
             a = self.eval(n.body, frame, st.with_cond(b, not flip))
             o = self.eval(n.orelse, frame, st.with_cond(b, flip))
@@ -1069,6 +1076,34 @@ def _const_expr(d: ast.AST) -> Term:
     if isinstance(d, ast.Tuple):
         return ("tuple", tuple(_const_expr(e) for e in d.elts))
     return ("name", "<default:" + ast.unparse(d) + ">")
+
+
+def const_truth(c: Term) -> Optional[bool]:
+    """Truth value of a condition term that constants decide:  None is None,  'x' == 'x',  <loop counter> is None, True/False."""
+    if c[0] == "const":
+        return bool(c[2])
+    if c[0] == "un" and c[1] == "Not":
+        v = const_truth(c[2])
+        return None if v is None else not v
+    if c[0] == "cmp" and c[1] in ("Is", "IsNot", "Eq", "NotEq"):
+        a, b = c[2], c[3]
+        pos = c[1] in ("Is", "Eq")
+        if a[0] == "const" and b[0] == "const":
+            same = (a == b) if c[1] in ("Is", "IsNot") else (a[2] == b[2])
+            return same if pos else not same
+        for x, y in ((a, b), (b, a)):
+            if y == NONE and x[0] in ("idx", "tuple", "fstr", "lam"):
+                return not pos           # a loop counter / tuple / string / function is never None
+    if c[0] == "bool":
+        vals = [const_truth(x) for x in c[2]]
+        if c[1] == "and":
+            if any(v is False for v in vals):
+                return False
+            return True if all(v is True for v in vals) else None
+        if any(v is True for v in vals):
+            return True
+        return False if all(v is False for v in vals) else None
+    return None
 
 
 def mk_ifexp(c: Term, a: Term, b: Term) -> Term:
